@@ -134,6 +134,12 @@ pub fn commit_faults() {
     // durable result equals the uninterrupted commit
     let w1 = st.lock().unwrap().writes.len();
     assert!(visible(&Melda::new(storage_prefix(&st, w1)).expect("reopen")) == after, "retried commit is not durable like an uninterrupted commit");
+    // and it can be transferred: a fresh replica melding from the committer sees the same result
+    {
+        let mut z = Rep::new();
+        z.pull(&a);
+        assert!(visible(&z.m) == after, "a replica melding from the committer does not see the retried commit");
+    }
     // a block is never written before the pack it names
     {
         let s = st.lock().unwrap();
